@@ -37,6 +37,37 @@ CLAIMS.update({
              note="segyio represented by a validated hand model; values behind keys are C02/C04",
              technique="Coq proof (slice.indices / range arithmetic) over generated accessor code + program-grammar differential testing against segyio"),
 })
+CLAIMS.update({
+ 'C06': dict(text="Coq theorems over the export as GENERATED from convert_to_segy (spec fields, operation order, index expressions, format-code bytes, header overrides): trace i of the SEG-Y is get_trace(i) for regular, irregular and 2D files (order preserved); header i is the regenerated header with DelayRecordingTime from the first sample; the 3600 header bytes are the stored ones whatever segyio wrote before (overwrite-last lemma); spec axes are the SGZ axes; format code choice. Partial: segyio's numerics (IEEE exact / IBM 2^-20) are a validated assumption; known findings D34 (extended textual headers), D35 (delay scaled by trace scalar).",
+             note="segyio is a validated hand model; numeric clause checked on every sample, not proved",
+             technique="Coq proof over generated export plan + byte-level correspondence + segyio round-trip oracle"),
+ 'C10': dict(text="Coq theorems for every well-formed source header and every box, over the cropper as GENERATED from cropping.py: exactly the out-of-range / empty / inverted / unsupported requests raise IndexError before the output is opened; a served crop is the request widened to block boundaries and clipped; every padded output voxel has the provenance of the corresponding source voxel (unit bytes copied from the specification position); the regenerated header states the box, is well-formed and describes the bytes that follow; footer entry (i,x) is source entry (i+i0,x+x0) with the stride the reader derives. Known finding D7h (start time stored as whole ms).",
+             note="decoded floats abstract; numpy reshape/slice indexing and struct.pack ranges hand-modelled",
+             technique="Coq proof over generated cropper + correspondence of output bytes + restriction oracle"),
+ 'C15': dict(text="Coq theorems by induction over ANY history (any number of readers, emulators, opens/closes, any chunk-cache capacity >= 1, preload on/off): every cached value equals the pure function of its key (invariant), so the results of a history equal those of a memory-less machine; LRU tables never exceed capacity nor hold duplicate keys; seek-then-read makes the shared handle position irrelevant. Cache tables, keys (all start with self), clear lists and the attribute analysis of cached bodies are GENERATED from loader.py/read.py.",
+             note="method bodies abstract programs; their purity guarded by generator analysis, oracle and pins; no concurrency",
+             technique="Coq proof (invariant by induction over operations) over generated cache tables + history differential testing against fresh readers"),
+ 'C16': dict(text="Coq theorems for EVERY n >= 1, every pair of queue capacities >= 1 and every schedule of the GENERATED thread programs (operation order extracted from compressor, writer, run_conversion_loop) under a small-step semantics of bounded FIFO queues with task_done/join: no deadlock, every execution has at most 8n+6 steps, at return the file is header, blocks 0..n-1 in order, flush, the file is always a prefix of it, and no thread has an enabled step after return.",
+             note="queue.Queue/threading semantics is a hand model validated by replaying model schedules on the real code under a cooperative scheduler",
+             technique="Coq proof (invariant + variant over an interleaving semantics) over generated thread programs + schedule replay on the real code"),
+ 'C19': dict(text="Coq theorems over define_blockshape* as GENERATED (exact rationals, explicit ZeroDivisionError), for ALL integer/float/string inputs: an accepted request is well-formed (rate in the 8 values, dims powers of two >= 4, first 1 in 2D, product x rate = 32768 bits) and keeps every fixed parameter; a request with a well-formed supported completion is accepted and returns the unique one; a refused request has none; the header written for an accepted configuration satisfies wf3/wf2 (the hypotheses of C01-C03). Known finding D13 (valid 2D settings below 1 bit are refused).",
+             note="Q vs binary64 agreement checked on every correspondence case; run() ordering is an AST check + file oracle",
+             technique="Coq proof over generated resolver + exhaustive-grid correspondence + conformance/fidelity oracle"),
+})
+CLAIMS.update({
+ 'C05': dict(text="Coq theorems: integer axes - for every start, non-zero step (either sign) and count whose values fit int32, the axis the GENERATED reader regenerates from the fields the GENERATED writer stores equals the source axis (two's-complement wrap explicit; unbounded, by arithmetic); counts, trace count, structured flag. Sample axis - binary64 modelled with Coq primitive floats: every interval 1..65535 us (start 0) is stored exactly and the regenerated samples are bit-equal, proved by vm_compute on the finite domain written in the statement; other (interval, start) combinations are sampled by the harness.",
+             note="PrimFloat/Uint63 kernel primitives (listed by Print Assumptions) model binary64; struct/numpy/segyio formula hand semantics",
+             technique="Coq proof (modular arithmetic, unbounded) + finite-domain float proof by vm_compute + correspondence on float.hex literals"),
+ 'C11': dict(text="Coq theorems over the windowed converter as GENERATED (window acceptance, Geometry3d ranges, header allocation, make_header fields, io_thread_func / read_line index arithmetic): for every source size, every window 0 <= min < max <= n on both axes (ordinal 0 included), both SEG-Y readers and all detection modes, converting with the window yields the same container model (dims, origins, increments, trace count, header arrays entry by entry, every plane-set buffer cell, hashed rows) as converting the restricted source alone; guard tables_agree for heuristic detection (known finding D6-heuristic-detection-from-source-corners).",
+             note="traces abstract; compression is C01; reduced-I/O self-test outcome is an input",
+             technique="Coq proof (index arithmetic, induction over plane sets) over generated window code + file-identity oracle against the sub-cube conversion"),
+ 'C17': dict(text="Coq theorems for every read plan, fault assignment (exception / short / empty, any positions, any number) and completion order: if any range read is not delivered in full the call raises, otherwise the assembled buffer is the true one, independent of the order in which parallel reads complete (permutation lemma over disjoint in-bounds splices whose slots are the GENERATED expressions of the four fan-outs); both backends pass through the GENERATED length check; every future is collected.",
+             note="thread timing = arbitrary permutation of atomic slice assignments; two adv-layout slot equations checked per file",
+             technique="Coq proof over generated guard, wiring and slot expressions + exhaustive fault-position injection on the real code"),
+ 'C18': dict(text="Coq theorems for every crash point (any prefix of the GENERATED write order of both converters, with a partial last write) and every robust reader program: a range not wholly inside the partial file raises; bytes no pending write touches are final; so a read raises or returns what the complete file returns; the patched header bytes (count, table, hash) are used only by the three parsers named; thorough-mode table patches torn at row boundaries are refused or final. Known findings D40 (hash before its patch), D41 (table row torn inside a value).",
+             note="crash point = prefix of program-order writes; OS write-back not modelled",
+             technique="Coq proof over generated write order and header-slice users + truncation sweep of real files against the complete file"),
+})
 REASONS = {}
 DEFAULT_REASON = "not yet covered by a theorem in this development (work in progress; will be claimed when its Props file exists)"
 
